@@ -177,7 +177,18 @@ def is_even(x):
     return x % 2 == 0
 
 
-NATOM = 10
+def inv_pred(x):
+    """predicate that raises ZeroDivisionError / IndexError / KeyError on right-typed near misses"""
+    if isinstance(x, (int, float)) and not isinstance(x, bool):
+        return 10 // x > 0
+    if isinstance(x, str):
+        return x[1] == 'a'
+    if isinstance(x, dict):
+        return x['k'] is not None
+    return bool(x)
+
+
+NATOM = 11
 
 
 def atom(k, lo):
@@ -199,6 +210,8 @@ def atom(k, lo):
         return Ref(Regex('a+'), lambda t: type(t) is str and re.fullmatch('a+', t) is not None)
     if k == 8:
         return None
+    if k == 10:
+        return inv_pred
     return bool
 
 
@@ -234,7 +247,7 @@ def composite(k, a, b):
 
 
 def _hashable_atom(a):
-    return type(a) is not Ref and a is not is_even
+    return type(a) is not Ref and a is not is_even and a is not inv_pred
 
 
 NTGT = 22
